@@ -634,6 +634,19 @@ COND_CONTEXTS = {
 }
 
 
+# parameters (and a local) named like a module level float of the defining module: the local binding wins
+SHADOW_CASES = [
+    ("return", ("a", "K"), ["return a - K * 2.0"]),
+    ("assign", ("a", "K"), ["z = K * 2.0", "return z - a"]),
+    ("branch", ("a", "K"), ["if K > a:", "    return K", "return a - K"]),
+    ("call", ("a", "K"), ["return loc(K, a)"]),
+    ("first", ("t", "b"), ["return t - b * 2.0"]),
+    ("both", ("t", "K"), ["return t - K * 2.0"]),
+    ("local", ("a", "b"), ["K = a - b", "return K * 2.0"]),
+    ("local-in-branch", ("a", "b"), ["if a > b:", "    K = a", "else:", "    K = b * 2.0", "return K"]),
+]
+
+
 def _nparams(text: str) -> tuple:
     names = {n.id for n in ast.walk(ast.parse(text)) if isinstance(n, ast.Name)}
     return ("a", "b", "c") if "c" in names else ("a", "b")
@@ -646,12 +659,14 @@ def e1_cases():
         for cname, mk in VALUE_CONTEXTS.items():
             body = mk(e)
             params = _nparams("\n".join(["def f():"] + [" " + b for b in body]))
-            out.append((f"value:{tag}:{cname}", params, body, renamings(len(params), True)))
+            out.append((f"value:{tag}:{cname}", params, body, renamings(len(params), cname == "return")))
+    for cname, params, body in SHADOW_CASES:
+        out.append((f"value:name-equal-to-module-float:{cname}", params, body, renamings(2, True)))
     for tag, c in COND_LEAVES:
         for cname, mk in COND_CONTEXTS.items():
             body = mk(c)
             params = _nparams("\n".join(["def f():"] + [" " + b for b in body]))
-            out.append((f"test:{tag}:{cname}", params, body, renamings(len(params), True)))
+            out.append((f"test:{tag}:{cname}", params, body, renamings(len(params), cname == "if-return")))
     return out
 
 
@@ -740,11 +755,12 @@ def sk_str(block) -> str:
 # (template, names it needs bound, names it binds)
 BIND_PLAIN = (
     ("t = {e}", (), ("t",)), ("t = {e}", (), ("t",)), ("u = {e}", (), ("u",)), ("a = {e}", (), ()), ("b = {e}", (), ()),
-    ("t, u = {e}, {f}", (), ("t", "u")), ("a, b = b, a", (), ()), ("u, t = t, {e}", ("t",), ("t", "u")), ("t, a = a, t", ("t",), ()),
+    ("t, u = {e}, {f}", (), ("t", "u")), ("t, b = {e}, {f}", (), ("t",)),
 )
+BIND_TUPLE = (("a, b = b, a", (), ()), ("u, t = t, {e}", ("t",), ("t", "u")), ("t, a = a, t", ("t",), ()), ("t, u = u, t", ("t", "u"), ()), ("t = u = {e}", (), ("t", "u")))
 BIND_OUTSIDE = (
     ("t += {e}", ("t",), ()), ("t: float = {e}", (), ("t",)), ("for _k in range(2): t = t + {e}", ("t",), ()), ("while t < 1.0: t = t + 1.0", ("t",), ()),
-    ("t = u = {e}", (), ("t", "u")), ("pass", (), ()), ("'a docstring'", (), ()), ("a -= {e}", (), ()), ("t *= 2.0", ("t",), ()),
+    ("pass", (), ()), ("'a docstring'", (), ()), ("a -= {e}", (), ()), ("t *= 2.0", ("t",), ()),
 )
 EXPRS = (
     ("a - b", ()), ("b * 2.0", ()), ("a * b", ()), ("K - a", ()), ("a + 1.0", ()), ("loc(b, a)", ()), ("a", ()), ("1.5", ()),
@@ -767,11 +783,11 @@ def _pick(rng, pool, bound):
 
 
 def fill(block, rng, flavour: str):
-    """instantiate a skeleton with statements / expressions / tests; flavour in plain | eq | outside.
+    """instantiate a skeleton with statements / expressions / tests; flavour in plain | eq | outside | tuple.
     `bound` tracks the locals that are certainly bound, so that most bodies are defined somewhere."""
 
     def bind(bound):
-        pool = BIND_OUTSIDE if flavour == "outside" and rng.random() < 0.45 else BIND_PLAIN
+        pool = BIND_OUTSIDE if flavour == "outside" and rng.random() < 0.45 else BIND_TUPLE if flavour == "tuple" and rng.random() < 0.5 else BIND_PLAIN
         tpl, _, binds = _pick(rng, pool, bound)
         if "t" not in bound and "t" not in binds and rng.random() < 0.6:
             tpl, binds = "t = {e}", ("t",)
@@ -857,7 +873,7 @@ def e2_cases(tier: str):
     four2 = [b for b in sk_blocks(4, 2, 3) if sk_has_return(b) and b not in set(four1)]
     if tier == "quick":
         for i, sk in enumerate(small):
-            add(sk, ("plain", "eq") if i % 2 == 0 else ("plain", "outside"))
+            add(sk, (("plain", "eq"), ("plain", "outside"), ("plain", "tuple"))[i % 3])
         for i, sk in enumerate(four1):
             add(sk, ("plain",) if i % 2 == 0 else ("three",))
         rng = random.Random(base + 17)
@@ -867,16 +883,16 @@ def e2_cases(tier: str):
                  f"all {len(four1)} skeletons with 4 leaves and nesting <= 1 x 1 filling; 800 of the {len(four2)} skeletons with 4 leaves and nesting 2 x 1 filling; 2 renamings each")
     else:
         for sk in small:
-            add(sk, ("plain", "eq", "outside", "three") * 3)
+            add(sk, ("plain", "eq", "outside", "three", "tuple", "plain") * 2)
         for sk in four1:
-            add(sk, ("plain", "eq", "outside", "three"))
-        for sk in four2:
-            add(sk, ("plain", "outside", "eq"))
+            add(sk, ("plain", "eq", "outside", "three", "tuple"))
+        for i, sk in enumerate(four2):
+            add(sk, ("plain", ("outside", "eq", "tuple")[i % 3]))
         five1 = [b for b in sk_blocks(5, 1, 3) if sk_has_return(b)]
         for sk in five1:
             add(sk, ("plain", "three"))
         bound = (f"all {len(small)} statement skeletons with <= 3 leaf statements (nesting <= 2, blocks <= 3 statements, <= 2 elif, with a return) x 12 fillings; "
-                 f"all {len(four1) + len(four2)} skeletons with 4 leaves x 3-4 fillings; all {len(five1)} skeletons with 5 leaves and nesting <= 1 x 2 fillings; 4 renamings each")
+                 f"all {len(four1) + len(four2)} skeletons with 4 leaves x 2-5 fillings; all {len(five1)} skeletons with 5 leaves and nesting <= 1 x 2 fillings; 4 renamings each")
     return cases, bound
 
 
@@ -1026,9 +1042,6 @@ def body_features(src: str) -> list[str]:
 
     walk(fn.body, False)
     feats.discard("nested-if")
-    control = sorted(feats & {"binding-inside-branch", "code-after-if-else", "code-after-if-without-else", "nested-if-without-else"})
-    if control:
-        return control  # the control structure decides the class; the forms of the statements only matter in straight-line bodies
     for n in ast.walk(fn):
         if isinstance(n, ast.Compare) and any(isinstance(o, (ast.Eq, ast.NotEq)) for o in n.ops):
             feats.add("equality-test")
@@ -1230,8 +1243,8 @@ def run(ctx: Ctx) -> None:
         ctx.extra.setdefault("translator_raised_instead_of_returning_None", {}).update({k: v for k, v in sorted(raised.items())[:8]})
         names = {"e1": "C06-leaves", "e2": "C06-statement-skeletons", "e3": "C06-tables"}
         bounds = {
-            "e1": (f"{len(VALUE_LEAVES)} value expressions x {len(VALUE_CONTEXTS)} statement contexts + {len(COND_LEAVES)} tests x {len(COND_CONTEXTS)} contexts "
-                   f"x all renamings of the model arguments ({len(REN2)} for two parameters, {len(REN3)} for three)"),
+            "e1": (f"{len(VALUE_LEAVES)} value expressions x {len(VALUE_CONTEXTS)} statement contexts + {len(COND_LEAVES)} tests x {len(COND_CONTEXTS)} contexts + {len(SHADOW_CASES)} bodies whose parameters/locals are named like module level floats "
+                   f"x all renamings of the model arguments in the first context ({len(REN2)} for two parameters, {len(REN3)} for three), {len(REN2_FEW)}-{len(REN3_FEW)} renamings in the other contexts"),
             "e2": e2_bound,
             "e3": (f"{n_entries} KNOWN_FNS entries x literal argument tuples on which Python defines a value ({len(T_UN)} floats, {len(T_INT_UN)} ints, "
                    f"{len(T_BIN_Q if tier == 'quick' else T_BIN_T)}^2 float pairs, {len(T_INT_BIN)} int pairs) + each entry applied to arguments; {n_const} KNOWN_CONSTANTS entries"),
